@@ -224,6 +224,20 @@ PROPS = {
              "timeout": {Q: 600, T: 3000}},
         ],
     },
+
+    "C14": {
+        "level": "exploration",
+        "technique": "runtime monitor under virtual time: origin executions carry unique ids, hits are judged for transparency/freshness/bypass/admission and the MaxBytes bound on an instrumented storage; deterministic scheduler with the cache.afterGet hook (exhaustive DFS for 2-3 workers) for panic/deadlock/accounting; race-detector stress with continuously expiring entries",
+        "level_text": "Timed histories (1-5 keys, expirations and ExpirationGenerator, invalidator, request Cache-Control, statuses, methods, bodies up to 4 KiB against MaxBytes 0/1 KiB/4 KiB, StoreResponseHeaders, custom keys, memory and instrumented storage) run on the fake clock; every response marked hit must be byte-equal to the recorded origin execution for that method+key, never older than its expiration (+1 s for the coarse clock), never after an invalidation, never for no-cache; no-store never creates an entry; non-cacheable statuses/methods never hit later; the sum of stored bodies never exceeds MaxBytes. 2-4 concurrent requests around an expiry are interleaved at the verif hook, storage calls, callbacks and the origin handler (28 fixed scenarios exhaustively, generated ones bounded): no panic, a follow-up request completes (no mutex held), accounting still evicts correctly.",
+        "level_note": TRUSTED + "; Go runtime faketime clock; the verif hook cache.afterGet. Freshness is asserted only beyond Expiration + 1 s (second-granular clocks); clock ticks while a request sits inside a critical section are not judged.",
+        "rule": "case = timed history / scheduled scenario x schedule / parallel burst; non-trivial = history with at least one hit and one expiry or eviction, resp. a distinct interleaving; distinct by case id and schedule key",
+        "subs": [
+            {"engine": "cache", "mode": "vt", "shards": {Q: 16, T: 16}, "reps": {Q: 1, T: 4}, "min_nontrivial": {Q: 3000, T: 30000},
+             "require_stats": {"hook.cache.afterGet": 1000}, "timeout": {Q: 900, T: 3400}},
+            {"engine": "cache.race", "mode": "race", "shards": {Q: 2, T: 4}, "reps": {Q: 1, T: 2}, "min_nontrivial": {Q: 2, T: 2},
+             "timeout": {Q: 900, T: 3000}},
+        ],
+    },
 }
 
 HOOK_COMMITS = ["d290bd8", "d29431c"]
